@@ -546,6 +546,8 @@ def exhaustive_histories(codes, bases):
         for s1 in stores:
             for l in loads:
                 out.append([s1, l])
+                if b == "s":
+                    out.append(["x:leal 1(%esi), %esi", s1, l])
             for s2 in stores:
                 for l in loads[::1]:
                     out.append([s1, s2, l])
@@ -583,6 +585,10 @@ def exhaustive_histories(codes, bases):
                             lw, lo = int(l.split(":")[2]), int(l.split(":")[3])
                             if lo <= 3 and lw // 8 >= 2:
                                 out.append(h + [l])
+                                if b == "s" and kinds in ("iiii", "riri"):
+                                    # the same through a pointer that is itself bound to base + constant: every address is
+                                    # (init_esi + 1) + offset and has to be reduced before it can meet the cell it names
+                                    out.append(["x:leal 1(%esi), %esi"] + h + [l])
     return out
 
 
